@@ -33,6 +33,8 @@ const (
 
 var errVerifReleased = errors.New("verif: request body released")
 
+const sigGoAwayNotFlushed = "transport-goaway-not-flushed"
+
 type vtStream struct {
 	id       uint32
 	kind     int
@@ -63,6 +65,7 @@ type vtConn struct {
 	sentinel   *testRoundTrip
 	obs        []string
 	sawFC      bool // connection-level FLOW_CONTROL_ERROR reported in this step
+	wireFC     bool // ... as a GOAWAY frame on the wire
 }
 
 func (c *vtConn) sorted() []*vtStream {
@@ -164,6 +167,7 @@ func (c *vtConn) drain() {
 			c.obs = append(c.obs, fmt.Sprintf("goaway:%d", uint32(f.ErrCode)))
 			if uint32(f.ErrCode) == vFlowCode {
 				c.sawFC = true
+				c.wireFC = true
 			}
 			if f.ErrCode != ErrCodeNo {
 				c.dead = true
@@ -387,6 +391,7 @@ func vtExec(t *testing.T, mode string, ops []string, o *vu.Out) {
 		if c != nil {
 			c.obs = nil
 			c.sawFC = false
+			c.wireFC = false
 		}
 		if f[0] == "treset" {
 			if len(f) != 3 {
@@ -602,6 +607,14 @@ func vtExec(t *testing.T, mode string, ops []string, o *vu.Out) {
 		c.settle()
 		if expectFC && !c.sawFC {
 			o.Fail("", fmt.Sprintf("%q: DATA beyond the advertised window was not refused with a FLOW_CONTROL_ERROR connection error", base))
+		}
+		if expectFC && c.sawFC && !c.wireFC {
+			// literal reading of C11 ("RST_STREAM/GOAWAY codes on the wire"): the error reaches the
+			// application but ClientConn.readLoop never flushes its GOAWAY before closing
+			c.o.Stat("branch:fc-not-on-wire")
+			if c.mode == "c11" {
+				o.Fail(sigGoAwayNotFlushed, fmt.Sprintf("%q: the Transport reported FLOW_CONTROL_ERROR to the application and closed the connection, but no GOAWAY(FLOW_CONTROL_ERROR) reached the wire", base))
+			}
 		}
 		if c.sawFC && !expectFC {
 			o.Fail("", fmt.Sprintf("%q: FLOW_CONTROL_ERROR although the DATA was within the advertised windows", base))
